@@ -1190,6 +1190,16 @@ func propC11(run *Run, n int) {
 	run.rule = "null-free (a,b), a != b, incl. key removal at depth, object<->scalar<->array type changes, empty objects x {MERGE, SET+MERGE, MULTISET+MERGE, SetKeys(id)+MERGE on keyed arrays}; non-trivial = the diff is non-empty; distinct = distinct (options, a, b)"
 	r := NewRng(run.Seed)
 	opts := []OptSet{OptMerge, OptSetMrg, OptMsetMrg, OptKeysMrg("id")}
+	// fixed pairs whose merge patch ADDS empty containers (at the end, in the middle, nested)
+	for _, pr := range [][2]*Val{
+		{VObj("cfg", VObj("mode", VStr("x")), "id", VNum(1)), VObj("cfg", VObj("mode", VStr("x"), "extra", VObj()), "id", VNum(1))},
+		{VObj("a", VNum(0)), VObj("a", VNum(1), "z", VObj())},
+		{VObj("a", VNum(0)), VObj("a", VObj("b", VObj("c", VObj())), "m", VObj(), "z", VNum(1))},
+		{VObj("a", VArr(VNum(1))), VObj("a", VObj())},
+	} {
+		run.Count("fixed:adds-empty-object")
+		addC11Case(run, OptMerge, pr[0], pr[1])
+	}
 	for i := 0; i < n; i++ {
 		cfg := fmtCfg(r)
 		cfg.AllowNull = false
@@ -1270,9 +1280,58 @@ func addC11Case(run *Run, o OptSet, a, b *Val) {
 		Probe{Kind: "corr", Rel: "RenderMerge = renderMergeM", Line: fmt.Sprintf("rendermerge %s %s", nd, dw), Want: txt},
 		Probe{Kind: "oracle", Rel: "C11 RFC 7386 MergePatch(a, rendered patch) ≈ b", Line: fmt.Sprintf("c11 %s %s %s %s %s", nd, o.Wire(), aw, bw, txt)},
 	)
+	// the rendering of ONE diff value before and after it was used: applied to a, and the document it produced edited in
+	// place (every leaf changed, a member put into every empty object) by a later Patch — the text must not change
+	if strings.HasPrefix(txt, "ok ") && hunkCount(dw) > 0 {
+		again := "ok"
+		res, _ := safely(func() string {
+			d := mustNode(aw).Diff(mustNode(bw), o.Go()...)
+			t1, e1 := d.RenderMerge()
+			p, e2 := mustNode(aw).Patch(d)
+			if e1 != nil || e2 != nil {
+				return "done"
+			}
+			pv, err := ParseWire(encOutcomeNode(p, nil)[3:])
+			if err != nil {
+				return "done"
+			}
+			edited := fillEmptyObjects(bumpLeaves(pv))
+			if _, e := p.Patch(p.Diff(mustNode(edited.Wire()))); e != nil {
+				return "done"
+			}
+			t2, e3 := d.RenderMerge()
+			if e3 != nil || t2 != t1 {
+				again = "fail after the diff was applied and the patched document edited in place by a later Patch, RenderMerge of the same diff value gives " + short(t2) + " instead of " + short(t1)
+			}
+			return "done"
+		})
+		if res == "panic" {
+			again = "ok"
+		}
+		c.Probes = append(c.Probes, Probe{Kind: "direct", Rel: "C11 a diff value renders the same merge patch after it was used", Want: again})
+	}
 	run.Count("opts:" + o.Name())
 	run.Count("hunks:" + sizeBucket(hunkCount(dw)))
 	run.Add(c)
+}
+
+// fillEmptyObjects puts a member into every empty object of v (in place; returns v)
+func fillEmptyObjects(v *Val) *Val {
+	switch v.K {
+	case KObj:
+		if len(v.O) == 0 {
+			v.O = map[string]*Val{"later": VBool(true)}
+			return v
+		}
+		for _, e := range v.O {
+			fillEmptyObjects(e)
+		}
+	case KArr:
+		for _, e := range v.A {
+			fillEmptyObjects(e)
+		}
+	}
+	return v
 }
 
 // ---------------------------------------------------------------------------------------------
